@@ -138,7 +138,7 @@ func judgeLib(run *vlib.Run, mi *machineInfo, ts *traceStore, c libCase, r libRe
 	sc := c.simCase(mi)
 	exp, err := expectedOutcomes(mi, ts, sc, hyp{})
 	if err != nil {
-		run.Report("C15|harness|reference-failed", fmt.Sprintf("%s: %v", c, err), libReplay{"lib", c})
+		infra(fmt.Sprintf("reference for %s: %v", c, err))
 		return false
 	}
 	// all shown values of the run, in order, on one line
